@@ -19,7 +19,7 @@ import clirun
 from lib import cmd, Sym, import_impl, outcome
 
 META = dict(
-    technique='Coq theorem on the seeding discipline (disciplined trace => output independent of the initial generator state) + run-time trace monitor judged by the extracted model + differential process runs',
+    technique='Coq theorems on the seeding discipline (disciplined trace => output independent of the initial generator state) and on a whole-program model of seeded command lines over the stream of primitive draws (one stream consumed as graph arguments ++ family ++ transformations; seeded runs write the same bytes from every generator state) + run-time trace monitor judged by the extracted model + byte-for-byte replay of recorded draws + differential process runs',
     category='proof',
     text='Theorem: for every generator and every program, a run whose first random event installs the seed is independent of the initial '
          'generator state; the repaired phase order of cnfgen/pbgen satisfies it for every seed including 0, the order found in the pinned '
@@ -216,6 +216,8 @@ def run(ctx):
     ctx.note('%d of %d sampled command lines were accepted by the tools' % (accepted, len(cases)))
     shutil.rmtree(base, ignore_errors=True)
     library_seeds(ctx)
+    import c07_pipeline
+    c07_pipeline.run_rand_pipeline(ctx)
 
 
 def library_seeds(ctx):
